@@ -704,6 +704,74 @@ func (fb *fnBounds) postFacts(in ssa.Instruction) []constraint {
 // the sorted slice, whose length the comparator cannot change.
 func (fb *fnBounds) closureContract() []constraint {
 	fn := fb.fn
+	// a comparator method of a slice type handed to sort.Slice as a bound method value of the very slice that
+	// is sorted (sort.Slice(xs, byKey(xs).less)): both indices are in range of the receiver
+	if fn.Parent() == nil && fn.Signature.Recv() != nil && len(fn.Params) == 3 && isIntType(fn.Params[1].Type()) && isIntType(fn.Params[2].Type()) && kindOf(fn.Params[0].Type()) == KSlice {
+		p := fb.bp.p
+		sites, other := 0, 0
+		strip := func(v ssa.Value) ssa.Value {
+			for {
+				if ct, ok := v.(*ssa.ChangeType); ok {
+					v = ct.X
+					continue
+				}
+				return v
+			}
+		}
+		for _, g := range p.RList {
+			for _, b := range g.Blocks {
+				for _, in := range b.Instrs {
+					switch t := in.(type) {
+					case *ssa.MakeClosure:
+						w, ok := t.Fn.(*ssa.Function)
+						if !ok || unwrapThunk(p, w) != fn || w == fn {
+							continue
+						}
+						okSite := len(t.Bindings) == 1
+						for _, r := range *t.Referrers() {
+							call, isCall := r.(*ssa.Call)
+							if !isCall {
+								if _, isDbg := r.(*ssa.DebugRef); !isDbg {
+									okSite = false
+								}
+								continue
+							}
+							callee := call.Call.StaticCallee()
+							if callee == nil || (callee.String() != "sort.Slice" && callee.String() != "sort.SliceStable") {
+								okSite = false
+								continue
+							}
+							mi, isMI := call.Call.Args[0].(*ssa.MakeInterface)
+							if !isMI || !okSite || strip(mi.X) != strip(t.Bindings[0]) {
+								okSite = false
+							}
+						}
+						if okSite {
+							sites++
+						} else {
+							other++
+						}
+					case ssa.CallInstruction:
+						if t.Common().StaticCallee() == fn {
+							other++
+						}
+						for _, a := range t.Common().Args {
+							if a == ssa.Value(fn) {
+								other++
+							}
+						}
+					}
+				}
+			}
+		}
+		if sites > 0 && other == 0 {
+			L := fb.lenOf(fn.Params[0], fb.entryInstr(), 0)
+			why := "sort.Slice index contract (bound comparator method of the sorted slice)"
+			return []constraint{geq(linVar(ssaName(fn.Params[1])), linConst(0), why), gt(L, linVar(ssaName(fn.Params[1])), why),
+				geq(linVar(ssaName(fn.Params[2])), linConst(0), why), gt(L, linVar(ssaName(fn.Params[2])), why)}
+		}
+		return nil
+	}
 	if fn.Parent() == nil || len(fn.Params) != 2 || !isIntType(fn.Params[0].Type()) || !isIntType(fn.Params[1].Type()) {
 		return nil
 	}
